@@ -36,8 +36,11 @@ def _case(chk, case):
     em.install_special_function_atoms(pe)
     (n, m), nf = case[0], case[1]
     fh = case[2] if len(case) > 2 else True     # the family of N3LO parametrisations (use_fhmruvv); the older one also serves nf = 6
+    var_ = case[3] if len(case) > 3 else VAR     # N3LO variation (gg, gq, qg, qq, ns+, ns-, nsv)
     N = dag.sym("N")
-    inst = f"order=({n},{m}),nf={nf}" + ("" if fh else ",use_fhmruvv=False")
+    # "omitted": every function is called without the switch - the siblings' DEFAULTS must select the same family
+    FH = [] if fh == "omitted" else [fh]
+    inst = f"order=({n},{m}),nf={nf}" + (f",n3lo_ad_variation={var_}" if var_ != VAR else "") + ("" if fh is True else ",use_fhmruvv omitted (defaults)" if fh == "omitted" else ",use_fhmruvv=False")
     fs = src.func(f"{US}.gamma_singlet_qed")
     fv = src.func(f"{US}.gamma_valence_qed")
     fn_ = src.func(f"{US}.gamma_ns_qed")
@@ -51,7 +54,7 @@ def _case(chk, case):
         except PERaise as e:
             return e.etype
 
-    r_qed, r_qcd = refusal(fs.qname, [(n, m), N, nf, VAR, fh]), refusal(f"{US}.gamma_singlet", [(n, 0), N, nf, VAR, fh])
+    r_qed, r_qcd = refusal(fs.qname, [(n, m), N, nf, var_] + FH), refusal(f"{US}.gamma_singlet", [(n, 0), N, nf, var_] + FH)
     if r_qed or r_qcd:
         chk.decide(r_qed == r_qcd == "NotImplementedError", "qed-and-qcd-refuse-alike", fs.qname,
                    f"{inst}: singlet sector: QED grid {'raises ' + r_qed if r_qed else 'is computed'} but the QCD one "
@@ -62,12 +65,12 @@ def _case(chk, case):
         if n < 1:
             return
         inst = inst + f" (singlet refused; compared through a_s^{n})"
-    S = pe.call(fs.qname, [(n, m), N, nf, VAR, fh])
-    V = pe.call(fv.qname, [(n, m), N, nf, VAR, fh])
-    Q = pe.call(f"{US}.gamma_singlet", [(n, 0), N, nf, VAR, fh])
-    nsp = pe.call(f"{US}.gamma_ns", [(n, 0), 10101, N, nf, VAR, fh])
-    nsm = pe.call(f"{US}.gamma_ns", [(n, 0), 10201, N, nf, VAR, fh])
-    nsv = pe.call(f"{US}.gamma_ns", [(n, 0), 10200, N, nf, VAR, fh])
+    S = pe.call(fs.qname, [(n, m), N, nf, var_] + FH)
+    V = pe.call(fv.qname, [(n, m), N, nf, var_] + FH)
+    Q = pe.call(f"{US}.gamma_singlet", [(n, 0), N, nf, var_] + FH)
+    nsp = pe.call(f"{US}.gamma_ns", [(n, 0), 10101, N, nf, var_] + FH)
+    nsm = pe.call(f"{US}.gamma_ns", [(n, 0), 10201, N, nf, var_] + FH)
+    nsv = pe.call(f"{US}.gamma_ns", [(n, 0), 10200, N, nf, var_] + FH)
     chk.need(isinstance(S, Arr) and S.shape == (n + 1, m + 1, 4, 4), f"gamma_singlet_qed shape changed ({inst})")
     diffs, names = [], []
     for i in range(1, n + 1):
@@ -97,7 +100,7 @@ def _case(chk, case):
     diffs, names = [], []
     grids = {}
     for mode in (10102, 10103, 10202, 10203):
-        g = pe.call(fn_.qname, [(n, m), mode, N, nf, VAR, fh])
+        g = pe.call(fn_.qname, [(n, m), mode, N, nf, var_] + FH)
         grids[mode] = g
         ref = nsp if mode in (10102, 10103) else nsm
         for i in range(1, n + 1):
@@ -124,6 +127,9 @@ def run(chk):
     nfs = (3, 4, 5, 6)
     cases = [(o, nf) for o in orders for nf in nfs]
     cases += [(o, nf, False) for o in orders if o[0] == 4 for nf in nfs]      # N3LO with the older parametrisations (the only ones for nf = 6)
+    cases += [(o, nf, "omitted") for o in orders if o[0] == 4 for nf in (3, 5)]
+    # N3LO uncertainty variations: one setting per entry; Sdelta and the up / down non-singlets follow the ns+ setting, Vdelta the ns- one
+    cases += [(o, nf, True, (1, 2, 1, 1, 2, 1, 2)) for o in orders if o[0] == 4 for nf in (3, 4)]
     pmap(chk, _case, cases, jobs=8)
     # choose_* are total over the four modes and refuse anything else
     pe = PE(src)
